@@ -228,3 +228,61 @@ class DoAction(object):
             bad.add('post[stopped-stays-stopped]')
             bad.add('raises[*][0]')
         return bad
+
+
+@register('circus.watcher:Watcher.spawn_processes')
+class SpawnProcesses(object):
+    """the real spawn_processes over fake workers (Watcher._stop replaced by a stand-in); spawn_process is a scripted recorder:
+    each call either lists a new worker or reports failure (False), as a refused before_spawn / after_spawn hook does"""
+    def from_model(self, m):
+        return []
+
+    def enumerate(self):
+        for np, workers, script in ((2, [], ['ok', 'ok']), (2, [], ['ok', 'fail']), (3, [True], ['ok', 'fail']),
+                                    (2, [], ['fail']), (1, [], ['fail']), (3, [], ['ok', 'ok', 'fail']),
+                                    (2, [True, True], []), (3, [True], ['ok', 'ok'])):
+            yield {'numprocesses': np, 'workers': workers, 'script': script}
+
+    def run(self, inp):
+        W, w, k, log, procs, vsleep = build(inp)
+        w.call_hook = lambda *a, **kw: True
+        w.stream_redirector = None
+        w.evpub_socket = None
+        script = list(inp['script'])
+        real_fake = w.spawn_process
+
+        def scripted(recovery_wid=None):
+            what = script.pop(0) if script else 'ok'
+            if what == 'fail':
+                return False
+            return real_fake(recovery_wid)
+        w.spawn_process = scripted
+        from tornado import gen
+
+        @gen.coroutine
+        def stop_standin():
+            # stand-in for Watcher._stop (its own contract is replayed by other adapters): all workers gone, stopped
+            log['stops'] = log.get('stops', 0) + 1
+            w.processes.clear()
+            w._status = 'stopped'
+        w._stop = stop_standin
+        before = len(w.processes)
+        res, exc = run_with_clock(W, vsleep, lambda: w.spawn_processes())
+        obs = {'status': w._status, 'count': len(w.processes), 'before': before, 'spawned': len(log['spawned'])}
+        if exc is not None:
+            obs['raised'] = type(exc).__name__
+        return obs
+
+    def check(self, inp, obs):
+        bad = set()
+        if 'raised' in obs:
+            return set(['noescape'])
+        np, k = inp['numprocesses'], obs['before']
+        if obs['status'] != 'stopped':
+            if obs['count'] != (np if k < np else k):
+                bad.add('post[6]')
+            if obs['spawned'] != obs['count'] - k:
+                bad.add('post[7]')
+        elif obs['count'] != 0:
+            bad.add('post[8]')
+        return bad
